@@ -41,6 +41,9 @@ pub struct ChanCfg {
     pub phase1: bool,
     /// run the C10/C11 monitors (and prune successors of state-corrupting violations)
     pub monitors: bool,
+    /// over the transactional cloud store (lazy enter, prepare / commit after every request)
+    #[serde(default)]
+    pub cloud: bool,
 }
 
 #[derive(Clone, Copy, Debug, PartialEq, Eq, Hash, PartialOrd, Ord, Serialize, Deserialize)]
@@ -374,22 +377,25 @@ impl Model for ChanModel {
 
     fn name(&self) -> String {
         format!(
-            "chanfsm(pv={},{},{},k={},{:?})",
+            "chanfsm(pv={},{},{},k={},{:?}{})",
             self.cfg.pv,
             if self.cfg.anchors { "anchors" } else { "static" },
             if self.cfg.outbound { "outbound" } else { "inbound" },
             self.cfg.k,
-            self.cfg.side
+            self.cfg.side,
+            if self.cfg.cloud { ",cloud-store" } else { "" }
         )
     }
 
     fn init(&self) -> ChanState {
         let mut cfg = WorldCfg::default();
         cfg.pv = self.cfg.pv;
+        cfg.cloud = self.cfg.cloud;
         let w = World::new(cfg);
         let cp = Cp::new(100);
         let r = w.new_channel(DBID);
         assert!(r.is_ok(), "new_channel: {:?}", r.tag());
+        w.end_request();
         let setup = self.setup_for(&w, &cp);
         let hsecrets = (0..self.cfg.k + 6)
             .map(|n| w.holder_secret_raw(DBID, n).unwrap().secret_bytes())
@@ -870,6 +876,9 @@ impl Model for ChanModel {
             s.dead = true;
             return;
         }
+        if !matches!(op, Op::Restart) {
+            end_cloud_request(s.w(), kind, &outcome_tag, check, vios);
+        }
         if check && outcome_tag != "skipped" {
             if outcome_tag.starts_with("err:") {
                 let after = s.w().snapshot();
@@ -992,25 +1001,30 @@ pub fn configs(tier: Tier, side: Side, monitors: bool) -> Vec<ChanCfg> {
     let mut v = vec![];
     match (tier, side) {
         (Tier::Quick, Side::Holder) => {
-            v.push(ChanCfg { pv: 6, anchors: false, outbound: true, k: 2, side, core_letters: true, phase1: false, monitors });
-            v.push(ChanCfg { pv: 5, anchors: true, outbound: true, k: 2, side, core_letters: false, phase1: true, monitors });
-            v.push(ChanCfg { pv: 4, anchors: false, outbound: true, k: 2, side, core_letters: false, phase1: false, monitors });
+            v.push(ChanCfg { pv: 6, anchors: false, outbound: true, k: 2, side, core_letters: true, phase1: false, monitors, cloud: false });
+            v.push(ChanCfg { pv: 5, anchors: true, outbound: true, k: 2, side, core_letters: false, phase1: true, monitors, cloud: false });
+            v.push(ChanCfg { pv: 4, anchors: false, outbound: true, k: 2, side, core_letters: false, phase1: false, monitors, cloud: false });
         }
         (Tier::Thorough, Side::Holder) => {
             for pv in [4u32, 5, 6] {
                 for anchors in [false, true] {
-                    v.push(ChanCfg { pv, anchors, outbound: true, k: 3, side, core_letters: true, phase1: true, monitors });
+                    v.push(ChanCfg { pv, anchors, outbound: true, k: 3, side, core_letters: true, phase1: true, monitors, cloud: false });
                 }
             }
-            v.push(ChanCfg { pv: 6, anchors: false, outbound: false, k: 3, side, core_letters: true, phase1: true, monitors });
+            v.push(ChanCfg { pv: 6, anchors: false, outbound: false, k: 3, side, core_letters: true, phase1: true, monitors, cloud: false });
         }
         (Tier::Quick, Side::Cp) => {
-            v.push(ChanCfg { pv: 6, anchors: false, outbound: true, k: 3, side, core_letters: false, phase1: false, monitors });
+            v.push(ChanCfg { pv: 6, anchors: false, outbound: true, k: 3, side, core_letters: false, phase1: false, monitors, cloud: false });
         }
         (Tier::Thorough, Side::Cp) => {
-            v.push(ChanCfg { pv: 6, anchors: false, outbound: true, k: 4, side, core_letters: false, phase1: true, monitors });
-            v.push(ChanCfg { pv: 6, anchors: true, outbound: true, k: 3, side, core_letters: false, phase1: true, monitors });
+            v.push(ChanCfg { pv: 6, anchors: false, outbound: true, k: 4, side, core_letters: false, phase1: true, monitors, cloud: false });
+            v.push(ChanCfg { pv: 6, anchors: true, outbound: true, k: 3, side, core_letters: false, phase1: true, monitors, cloud: false });
         }
+    }
+    if monitors {
+        // the same histories over the transactional store (C10 / C11 clauses about it)
+        let k = if side == Side::Cp { 3 } else { 2 };
+        v.push(ChanCfg { pv: 6, anchors: false, outbound: true, k, side, core_letters: side == Side::Holder, phase1: tier == Tier::Thorough, monitors, cloud: true });
     }
     v
 }
@@ -1049,6 +1063,7 @@ pub fn replay_ops(v: &Value) -> Vec<Vio> {
         core_letters: true,
         phase1: true,
         monitors: true,
+        cloud: false,
     };
     let ops: Vec<Op> = serde_json::from_value(v["ops"].clone()).unwrap();
     let m = ChanModel { cfg };
